@@ -107,6 +107,12 @@ Definition responses_of (s : nat) (rs : list resp) : Z := Z.of_nat (List.length 
 Definition successes_of (s : nat) (rs : list resp) : Z :=
   Z.of_nat (List.length (filter is_ok (kinds_for s rs))).
 
+(* the write quorum, stated independently of the source: a majority of the
+   replicas, except that replication factor 2 is satisfied by one copy *)
+Definition spec_quorum (rf : Z) : Z := if rf =? 2 then 1 else rf / 2 + 1.
+(* an already replicated request (replica header set) addresses one replica *)
+Definition spec_threshold (rf rep : Z) : Z := if rep =? 0 then spec_quorum rf else 1.
+
 Definition quorum_everywhere (n : nat) (q : Z) (rs : list resp) : bool :=
   forallb (fun s => successes_of s rs >=? q) (seq 0 n).
 
@@ -133,6 +139,6 @@ Definition pred_ok (c : case) : bool :=
   match c with
   | CAck rf rep place ws obs_ids status delivered =>
       if (status =? 200) && negb (rep >? rf) then
-        quorum_everywhere (List.length place) (success_threshold rf rep) (firstn delivered (resps_of place ws))
+        quorum_everywhere (List.length place) (spec_threshold rf rep) (firstn delivered (resps_of place ws))
       else true
   end.
